@@ -1463,9 +1463,15 @@ class FileBuilder:
         dirs_to_make = self._dirs_to_make(dir_, None)
         made_dirs = []
         for parent in dirs_to_make:
+            # A file we are building (or have built) during this build is not
+            # a leftover from the previous build, even if the previous build
+            # also created it
+            norm_cased_parent = os.path.normcase(parent)
             if (os.path.isfile(parent) and
                     self._old_cache.created_norm_cased_file(
-                        os.path.normcase(parent)) and
+                        norm_cased_parent) and
+                    not self._new_cache.has_norm_cased_file(
+                        norm_cased_parent) and
                     self._backups.back_up_and_remove(parent)):
                 logger.info(
                     'Moved {:s} to a temporary directory, in order to create '
